@@ -187,7 +187,9 @@ fn exec_inner(c: &Case) -> Result<u64, String> {
                 h.update(&g.slice()[cut..]);
             }
             let got = h.finalize_box();
-            let exp = id.reference(&msg);
+            // under Miri (where the point is UB detection) the slow models are replaced by the
+            // implementation's own digest of an ordinary aligned copy of the message
+            let exp = if cfg!(miri) && !matches!(id.fam, api::Fam::Blake) { id.oneshot(&msg) } else { id.reference(&msg) };
             if got != exp {
                 return Err(format!("digest of a message at address {:#x} (len {}) is {} reference {}", g.addr(), c.len, hex(&got), hex(&exp)));
             }
@@ -242,7 +244,13 @@ fn exec_inner(c: &Case) -> Result<u64, String> {
             let blk = r.bytes(64);
             let mut g = GuardBuf::new(&blk, c.place);
             g.seal();
-            let exp = crate::refmodel::jh::f8(&st, &blk);
+            let exp = if cfg!(miri) {
+                let mut cp = jh_x86_64::compressor::Compressor::new(st);
+                cp.input(GenericArray::from_slice(&blk));
+                cp.finalize()
+            } else {
+                crate::refmodel::jh::f8(&st, &blk)
+            };
             let got = if c.what == "compressor" {
                 let mut cp = jh_x86_64::compressor::Compressor::new(st);
                 cp.input(GenericArray::from_slice(g.slice()));
@@ -277,6 +285,9 @@ pub fn exec(cx: &mut Ctx, c: &Case) {
 pub fn run(cx: &mut Ctx) {
     cx.selftest(crate::refmodel::T_ALL);
     let mut rng = cx.rng("C16");
+    if cfg!(miri) {
+        cx.log.note("miri", "expected values for Groestl/JH/Skein come from the implementation's digest of an aligned copy (alignment-independence), not from the reference models");
+    }
     let levels = api::backend_levels();
     let hashes = api::hashes15(64);
     cx.log.note("placement", if crate::guard::use_mmap() { "mmap guard pages" } else { "exact-size heap allocations (tool red zones)" });
